@@ -139,7 +139,7 @@ func treeInvocation(r *rand.Rand, root *drive.Cmd, version bool, mutateP int) (a
 			// ... and near misses of this level's own sub-command names: another letter case, a prefix, one more letter
 			for _, k := range cur.Kids {
 				for _, al := range k.Aliases {
-					for _, nm := range []string{strings.ToUpper(al), al[:len(al)-1], al + "x", strings.ToUpper(al[:1]) + al[1:]} {
+					for _, nm := range []string{strings.ToUpper(al), al[:len(al)-1], al + "x", strings.ToUpper(al[:1]) + al[1:], " " + al, al + " ", al + "\n", "\t" + al} {
 						if nm != "" && isAliasOfKid(cur, nm) == nil {
 							foreign = append(foreign, nm)
 						}
@@ -929,6 +929,7 @@ func c14One(c *core.Ctx, root *drive.Cmd, version bool, policy flag.ErrorHandlin
 	}
 	c.Journal(d)
 	app := &drive.App{Root: root, Policy: policy, Version: version}
+	app.VersionLate = version && (c.Index/10)%3 == 1 // the version flag declared after the root's own options
 	versionText := drive.VersionText
 	if version {
 		// the declared version string is printed as it is: also when it is empty, indented or spans several lines
